@@ -103,6 +103,63 @@ type plan struct {
 	// nested scenario: mapper invocation nestAt runs the second call and (nestForward) passes its error to cancel
 	nestAt      int
 	nestForward bool
+	// lagging deadline context (only for contexts that carry a deadline): Deadline() reports T, Done is
+	// closed at T + lag by a harness task
+	lagShape  bool
+	lag       time.Duration
+	lagParent bool // dCtxDeadline: the lagging context wraps a cancellable parent
+	// user functions working up to an instant relative to the deadline before they write (0: not)
+	edgesDrawn bool
+	mapEdge    []int // per item
+	redEdge    int   // the reducer, before the writes it does after its loop (write-early reducers: before the early write)
+	genEdge    int   // the generator / feeder, before handing over item genEdgeAt
+	genEdgeAt  int
+}
+
+// instants, relative to the deadline T of the call's context and the lag of its Done channel, up to
+// which a user function stays busy before it goes on (writes / hands over / returns)
+var edgeNames = []string{"", "just-before-deadline", "at-deadline", "just-past-deadline", "mid-lag", "just-before-done-closes", "when-done-closes", "just-after-done-closes"}
+
+func edgeOffset(edge int, lag time.Duration) time.Duration {
+	switch edge {
+	case 1:
+		return -1
+	case 3:
+		return 1
+	case 4:
+		return lag / 2
+	case 5:
+		return lag - 1
+	case 6:
+		return lag
+	case 7:
+		return lag + 1
+	}
+	return 0
+}
+
+// lagName: ASCII name of a lag for probes and samples.
+func lagName(d time.Duration) string {
+	return strings.ReplaceAll(d.String(), "\u00b5", "u")
+}
+
+func drawEdge(t *simrt.Tape) int {
+	return []int{0, 0, 0, 0, 2, 3, 1, 4, 5, 6, 7, 2}[t.Intn(12)]
+}
+
+// drawEdges draws which user functions stay busy up to an instant around the deadline.
+func drawEdges(t *simrt.Tape, p *plan) {
+	p.edgesDrawn = true
+	for i := 0; i < p.items; i++ {
+		p.mapEdge = append(p.mapEdge, drawEdge(t))
+	}
+	if t.Chance(1, 3) {
+		p.redEdge = drawEdge(t)
+	}
+	if t.Chance(1, 4) {
+		p.genEdge = drawEdge(t)
+		p.genEdgeAt = t.Intn(p.items + 1)
+	}
 }
 
 // ---- error values passed to cancel / returned by Finish functions
@@ -223,17 +280,94 @@ type ctxState struct {
 	cancel     context.CancelFunc
 	fired      bool          // the harness cancelled it (set right before the cancel call)
 	firedAt    time.Duration // virtual instant of that
-	deadlineAt time.Duration // virtual instant of its deadline, -1: none
+	deadlineAt time.Duration // virtual instant of its deadline (what Deadline() reports), -1: none
 	task       *simrt.Task
+	lc         *lagCtx       // the context is a lagging deadline context
+	lagDur     time.Duration // its lag
+	alignable  bool          // the deadline is near enough for user functions to work up to it
 }
 
-// endedBefore: the context had certainly ended strictly before virtual instant at.
+// pastDeadlineOpen: the deadline instant has been reached while Done is not closed (yet).
+func (c *ctxState) pastDeadlineOpen(now time.Duration) bool {
+	return c != nil && c.deadlineAt >= 0 && now >= c.deadlineAt && c.ctx.Err() == nil
+}
+
+// endedBefore: the context had certainly ended (its Done channel was closed) strictly before virtual instant at.
 func (c *ctxState) endedBefore(at time.Duration) bool {
 	if c == nil {
 		return false
 	}
+	if c.lc != nil && c.lc.lag > 0 {
+		// Done is closed by a harness task some time after the deadline: the recorded instant counts
+		return c.lc.err != nil && c.lc.endedAt < at
+	}
 	return c.fired && c.firedAt < at || c.deadlineAt >= 0 && c.deadlineAt < at
 }
+
+// lagCtx is a context.Context owned by the harness: a "lagging deadline context".  Deadline() reports T,
+// but Done is closed - and Err() turns non-nil - only at T + lag, by a harness background task (in a real
+// execution the timer behind a context's Done fires a little after the deadline instant).  It ends at
+// once (context.Canceled) when the harness cancels it or its parent.  With lag 0 it behaves exactly like
+// the standard deadline context it wraps.
+type lagCtx struct {
+	r        *simrt.Run
+	parent   context.Context
+	inner    context.Context // standard context on parent with deadline T + lag: it wakes the closer task
+	deadline time.Time
+	lag      time.Duration
+	done     chan struct{}
+	err      error
+	endedAt  time.Duration // virtual instant at which done was closed
+}
+
+func newLagCtx(r *simrt.Run, parent context.Context, deadline time.Time, lag time.Duration) (*lagCtx, context.CancelFunc) {
+	c := &lagCtx{r: r, parent: parent, deadline: deadline, lag: lag}
+	var cancelInner context.CancelFunc
+	c.inner, cancelInner = context.WithDeadline(parent, deadline.Add(lag))
+	if lag == 0 {
+		return c, cancelInner
+	}
+	c.done = make(chan struct{})
+	r.GoBackground("lagctx-closer", func() {
+		simrt.Recv("lagctx-closer", c.inner.Done())
+		c.end(c.inner.Err())
+	})
+	return c, func() {
+		cancelInner()
+		c.end(context.Canceled)
+	}
+}
+
+// end closes Done (once); closing and the change of Err() are one step for every other task.
+func (c *lagCtx) end(err error) {
+	if c.err != nil {
+		return
+	}
+	c.err = err
+	close(c.done)
+	c.endedAt = c.r.Elapsed()
+	if errors.Is(err, context.DeadlineExceeded) {
+		c.r.Probe("ctx-lagging-done-closed-after-deadline")
+	}
+}
+
+func (c *lagCtx) Deadline() (time.Time, bool) { return c.deadline, true }
+
+func (c *lagCtx) Done() <-chan struct{} {
+	if c.lag == 0 {
+		return c.inner.Done()
+	}
+	return c.done
+}
+
+func (c *lagCtx) Err() error {
+	if c.lag == 0 {
+		return c.inner.Err()
+	}
+	return c.err
+}
+
+func (c *lagCtx) Value(key any) any { return c.parent.Value(key) }
 
 type world struct {
 	r   *simrt.Run
@@ -272,18 +406,21 @@ type world struct {
 	redOutput         int
 
 	// outcome of the call
-	invoked            bool
-	returned           bool
-	val                int
-	err                error
-	panicVal           any
-	retClk             int
-	pipeClosedClk      int // the reducer saw its pipe closed (all mappers had ended by then)
-	firstMapperPanicClk int
-	cancelledAtReturn  bool // some cancel had been invoked when the call returned
-	ctxEndedAtReturn   bool // the context had ended when the call returned
-	returnedBeforeNest bool // nested scenario: this (outer) call had returned before the inner one did
-	checked            bool
+	invoked  bool
+	returned bool
+	val      int
+	err      error
+	panicVal any
+	retClk   int
+	retAt    time.Duration
+	// the call returned at or after the deadline its context reports while that context had not ended
+	pastDeadlineAtReturn bool
+	pipeClosedClk        int // the reducer saw its pipe closed (all mappers had ended by then)
+	firstMapperPanicClk  int
+	cancelledAtReturn    bool // some cancel had been invoked when the call returned
+	ctxEndedAtReturn     bool // the context had ended when the call returned
+	returnedBeforeNest   bool // nested scenario: this (outer) call had returned before the inner one did
+	checked              bool
 }
 
 func newWorld(r *simrt.Run, p *plan, tag string) *world {
@@ -382,6 +519,36 @@ func (w *world) work(d time.Duration) {
 		}
 	default:
 		w.r.Sleep(d)
+	}
+}
+
+// busyUntil keeps the calling user function busy up to the instant the edge names (relative to the
+// deadline of the call's context and the lag of its Done channel); no-op when that instant has passed.
+func (w *world) busyUntil(who string, edge int) {
+	r, cs := w.r, w.cs
+	if edge == 0 || cs == nil || !cs.alignable {
+		return
+	}
+	target := cs.deadlineAt + edgeOffset(edge, cs.lagDur)
+	if d := target - r.Elapsed(); d > 0 {
+		r.Sleep(d)
+		r.Probe(who + "-busy-until-" + edgeNames[edge])
+	}
+}
+
+// noteWrite: probes for where a write of a user function falls relative to the deadline and the end of the context.
+func (w *world) noteWrite(who string) {
+	r, cs := w.r, w.cs
+	if cs == nil || cs.deadlineAt < 0 {
+		return
+	}
+	now := r.Elapsed()
+	if cs.pastDeadlineOpen(now) {
+		if now == cs.deadlineAt {
+			r.Probe(who + "-writes-at-deadline-instant-done-open")
+		} else {
+			r.Probe(who + "-writes-past-deadline-done-open")
+		}
 	}
 }
 
@@ -493,6 +660,15 @@ func drawPlan(t *simrt.Tape, tier string, small bool) *plan {
 	if p.useCtx && t.Chance(1, 3) {
 		p.fwdCtx = true
 	}
+	if p.useCtx && (p.dist == dCtxDeadline || p.ctxDeadline > 0) {
+		// the context carries a deadline: its shape (standard / lagging) and user functions busy up to it
+		if t.Intn(5) >= 2 {
+			p.lagShape = true
+			p.lag = []time.Duration{0, 1, 50 * time.Microsecond, 2 * time.Millisecond, time.Second}[t.Intn(5)]
+			p.lagParent = p.dist == dCtxDeadline && t.Chance(1, 3)
+		}
+		drawEdges(t, p)
+	}
 	return p
 }
 
@@ -501,11 +677,26 @@ func (p *plan) summary() map[string]any {
 	for _, x := range p.extras {
 		xs = append(xs, fmt.Sprintf("%s@%d", xNames[x.kind], x.at))
 	}
-	return map[string]any{"variant": []string{"MapReduce", "MapReduceVoid", "MapReduceChan", "ForEach", "Finish", "FinishVoid"}[p.variant],
+	m := map[string]any{"variant": []string{"MapReduce", "MapReduceVoid", "MapReduceChan", "ForEach", "Finish", "FinishVoid"}[p.variant],
 		"items": p.items, "options": optNames[p.optKind], "workers": p.workers, "fanout": fmt.Sprint(p.fanout),
 		"reducer": []string{"sum-write-once", "write-nothing", "write-early", "write-twice"}[p.redKind], "reducer_stops_after": p.redStop,
 		"disturbance": dNames[p.dist], "at": p.distAt, "dur": p.distDur.String(), "error": errKindNames[p.errKind], "panic": panicKindNames[p.panicKind],
 		"more": strings.Join(xs, " "), "ctx": p.useCtx, "ctx_deadline": p.ctxDeadline.String()}
+	if p.lagShape {
+		m["ctx_shape"] = "lagging-deadline"
+		m["ctx_done_lag"] = lagName(p.lag)
+		m["ctx_wraps_parent"] = p.lagParent || p.ctxDeadline > 0
+	}
+	if p.edgesDrawn {
+		var es []string
+		for _, e := range p.mapEdge {
+			es = append(es, edgeNames[e])
+		}
+		m["mappers_busy_until"] = strings.Join(es, ",")
+		m["reducer_busy_until"] = edgeNames[p.redEdge]
+		m["generator_busy_until"] = edgeNames[p.genEdge]
+	}
+	return m
 }
 
 // setupCtx builds the context of the call (at the moment the call starts) and starts its canceller.
@@ -525,13 +716,29 @@ func (w *world) setupCtx() {
 	w.cs = cs
 	now := r.Elapsed()
 	switch {
+	case p.dist == dCtxDeadline && p.lagShape:
+		parent, cancelParent := context.Background(), context.CancelFunc(func() {})
+		if p.lagParent {
+			parent, cancelParent = context.WithCancel(parent)
+			r.Probe("ctx-lagging-wraps-parent")
+		}
+		lc, cancelLc := newLagCtx(r, parent, time.Now().Add(p.distDur), p.lag)
+		cs.ctx, cs.lc, cs.lagDur = lc, lc, p.lag
+		cs.cancel = func() { cancelParent(); cancelLc() }
+		cs.deadlineAt = now + p.distDur
 	case p.dist == dCtxDeadline:
 		cs.ctx, cs.cancel = context.WithTimeout(context.Background(), p.distDur)
 		cs.deadlineAt = now + p.distDur
 	case p.ctxDeadline > 0:
 		parent, cancelParent := context.WithCancel(context.Background())
 		var cancelChild context.CancelFunc
-		cs.ctx, cancelChild = context.WithTimeout(parent, p.ctxDeadline)
+		if p.lagShape {
+			lc, cancelLc := newLagCtx(r, parent, time.Now().Add(p.ctxDeadline), p.lag)
+			cs.ctx, cs.lc, cs.lagDur, cancelChild = lc, lc, p.lag, cancelLc
+			r.Probe("ctx-lagging-wraps-parent")
+		} else {
+			cs.ctx, cancelChild = context.WithTimeout(parent, p.ctxDeadline)
+		}
 		cs.cancel = func() { cancelParent(); cancelChild() }
 		cs.deadlineAt = now + p.ctxDeadline
 		if p.dist == dCtxCancel {
@@ -542,6 +749,12 @@ func (w *world) setupCtx() {
 	default:
 		cs.ctx, cs.cancel = context.WithCancel(context.Background())
 	}
+	if cs.lc != nil {
+		r.Probe("ctx-lagging")
+		r.Probe("ctx-lagging-lag-" + lagName(p.lag))
+	}
+	// a deadline an hour away stands for "never": nobody works up to it
+	cs.alignable = cs.deadlineAt >= 0 && cs.deadlineAt-now <= 5*time.Second
 	if p.dist != dCtxCancel {
 		return
 	}
@@ -602,6 +815,9 @@ func (w *world) generate(source chan<- int) {
 		}
 		if p.genDur > 0 {
 			r.Sleep(p.genDur)
+		}
+		if p.genEdge != 0 && i == p.genEdgeAt {
+			w.busyUntil("generator", p.genEdge)
 		}
 		w.generated = append(w.generated, i)
 		simrt.Send("gen", source, i)
@@ -693,9 +909,15 @@ func (w *world) mapper(item int, writer mr.Writer[int], cancel func(error)) {
 			w.doCancel(cancel, e, -1)
 		}
 	}
+	if item < len(p.mapEdge) {
+		w.busyUntil("mapper", p.mapEdge[item])
+	}
 	for k := 0; k < p.fanout[item]; k++ {
 		v := item*100 + k
 		w.written = append(w.written, v)
+		if p.variant <= 2 {
+			w.noteWrite("mapper")
+		}
 		writer.Write(v)
 	}
 	if p.variant <= 2 && p.fanout[item] > p.eff {
@@ -718,6 +940,9 @@ func (w *world) reducer(pipe <-chan int, writer mr.Writer[int], cancel func(erro
 		w.redWrites++
 		w.lastWriteStartClk = w.tick()
 		w.lastWriteStartAt = r.Elapsed()
+		if p.variant != 1 {
+			w.noteWrite("reducer")
+		}
 		writer.Write(v)
 		w.redWriteReturned++
 	}
@@ -770,11 +995,15 @@ func (w *world) reducer(pipe <-chan int, writer mr.Writer[int], cancel func(erro
 		sum += v
 		n++
 		if p.redKind == 2 && n == 1 {
+			w.busyUntil("reducer", p.redEdge)
 			write(1_000_000 + v)
 		}
 		if check() {
 			return
 		}
+	}
+	if p.redKind != 2 {
+		w.busyUntil("reducer", p.redEdge)
 	}
 	switch p.redKind {
 	case 0:
@@ -802,7 +1031,14 @@ func (w *world) invoke() {
 	defer func() {
 		w.panicVal = recover()
 		w.cancelledAtReturn = len(w.cancelErrs) > 0 || w.cancelNil
+		// ended = Done closed (a lagging deadline context has not ended between its deadline and that
+		// instant), or the harness is in the middle of cancelling it
 		w.ctxEndedAtReturn = w.cs != nil && (w.cs.fired || w.cs.ctx.Err() != nil)
+		w.retAt = r.Elapsed()
+		if !w.ctxEndedAtReturn && w.cs.pastDeadlineOpen(w.retAt) {
+			w.pastDeadlineAtReturn = true
+			r.Probe("returned-past-deadline-done-open")
+		}
 		w.returned = true
 		w.retClk = w.tick()
 	}()
@@ -823,6 +1059,9 @@ func (w *world) invoke() {
 			for i := 0; i < p.items; i++ {
 				if p.genDur > 0 {
 					r.Sleep(p.genDur)
+				}
+				if p.genEdge != 0 && i == p.genEdgeAt {
+					w.busyUntil("generator", p.genEdge)
 				}
 				w.generated = append(w.generated, i)
 				simrt.Send("feeder", source, i)
@@ -888,6 +1127,10 @@ func body(r *simrt.Run, tier string) {
 				p2.useCtx, p2.ctxDeadline, p2.ctxPreEnded = true, 0, false
 				if p2.dist == dCtxCancel || p2.dist == dCtxDeadline {
 					p2.dist = dNone
+				}
+				p2.lagShape, p2.lag, p2.lagParent = false, 0, false
+				if !p2.edgesDrawn && (p1.dist == dCtxDeadline || p1.ctxDeadline > 0) {
+					drawEdges(t, p2)
 				}
 				shareCtx = true
 			}
@@ -1111,6 +1354,19 @@ func (w *world) isUserPanic(pv any) bool {
 	return false
 }
 
+// ctxNote describes the call's context at return for violation messages.
+func (w *world) ctxNote() string {
+	cs := w.cs
+	if cs == nil || cs.deadlineAt < 0 {
+		return ""
+	}
+	shape := "standard"
+	if cs.lc != nil {
+		shape = fmt.Sprintf("lagging, Done closes %v after the deadline", cs.lagDur)
+	}
+	return fmt.Sprintf("; context: %s, deadline at %v, call returned at %v, ended at return: %v", shape, cs.deadlineAt, w.retAt, w.ctxEndedAtReturn)
+}
+
 func (w *world) checkOutcome() {
 	r, p := w.r, w.p
 	w.checked = true
@@ -1119,6 +1375,12 @@ func (w *world) checkOutcome() {
 	// disturbed: something the statement's second sentence is about had happened by the time the
 	// call returned (a cancel invoked, the context ended, a user function panicked)
 	disturbed := w.cancelledAtReturn || w.ctxEndedAtReturn || len(w.userPanics) > 0
+	// scenario class: the call returned at or after the deadline its context reports, while the
+	// context had not ended (its Done channel was still open)
+	sfx := ""
+	if w.pastDeadlineAtReturn {
+		sfx = "/deadline-passed-done-not-closed"
+	}
 	// ---- panics
 	if panicVal != nil {
 		if w.isUserPanic(panicVal) {
@@ -1187,11 +1449,16 @@ func (w *world) checkOutcome() {
 		if err != nil && !allowed(err) {
 			if errors.Is(err, mr.ErrReduceNoOutput) && (p.variant == 0 || p.variant == 2) {
 				if w.redWrites > 0 && !disturbed {
-					r.Fail("lost-output", "reducer wrote %d but the call returned ErrReduceNoOutput", w.redOutput)
+					r.Fail("lost-output"+sfx, "reducer wrote %d but the call returned ErrReduceNoOutput (nothing cancelled, no panic, context not ended%s)", w.redOutput, w.ctxNote())
 				}
 				// with a disturbance the reducer's write may have been dropped legitimately
 			} else {
-				r.Fail("foreign-error", "call %s returned error %v (%T) which was neither passed to cancel nor a context error (disturbance %s, user panics %d)", w.tag, err, err, dNames[p.dist], len(w.userPanics))
+				class := "foreign-error"
+				if w.cs != nil && !w.ctxEndedAtReturn && (errors.Is(err, context.DeadlineExceeded) || errors.Is(err, context.Canceled)) {
+					// scenario class: a context error although the call's context had not ended when it returned
+					class = "foreign-error/context-error-before-context-ended" + sfx
+				}
+				r.Fail(class, "call %s returned error %v (%T) which was neither passed to cancel nor a context error of an ended context (disturbance %s, user panics %d%s)", w.tag, err, err, dNames[p.dist], len(w.userPanics), w.ctxNote())
 			}
 			return
 		}
@@ -1201,12 +1468,12 @@ func (w *world) checkOutcome() {
 		if p.variant <= 3 {
 			for _, it := range w.generated {
 				if w.mapped[it] != 1 {
-					r.Fail("map-count", "item %d mapped %d times", it, w.mapped[it])
+					r.Fail("map-count"+sfx, "item %d mapped %d times (undisturbed call%s)", it, w.mapped[it], w.ctxNote())
 					return
 				}
 			}
 			if len(w.mapped) != len(w.generated) {
-				r.Fail("map-count", "mapped %d distinct items, generated %d", len(w.mapped), len(w.generated))
+				r.Fail("map-count"+sfx, "mapped %d distinct items, generated %d", len(w.mapped), len(w.generated))
 				return
 			}
 		} else {
@@ -1221,11 +1488,11 @@ func (w *world) checkOutcome() {
 			if w.redQuit {
 				// the reducer walked away from its pipe: what it did receive must have been written, once
 				if !subMultiset(w.reduced, w.written) {
-					r.Fail("reduce-multiset", "mappers wrote %v, the reducer (which stopped early) received %v", w.written, w.reduced)
+					r.Fail("reduce-multiset"+sfx, "mappers wrote %v, the reducer (which stopped early) received %v (undisturbed call%s)", w.written, w.reduced, w.ctxNote())
 					return
 				}
 			} else if !multisetEq(w.written, w.reduced) {
-				r.Fail("reduce-multiset", "mappers wrote %v, reducer received %v", w.written, w.reduced)
+				r.Fail("reduce-multiset"+sfx, "mappers wrote %v, reducer received %v (undisturbed call%s)", w.written, w.reduced, w.ctxNote())
 				return
 			}
 		}
@@ -1233,15 +1500,15 @@ func (w *world) checkOutcome() {
 			switch {
 			case w.redWrites == 0:
 				if !errors.Is(err, mr.ErrReduceNoOutput) {
-					r.Fail("no-output", "reducer wrote nothing but the call returned (%d, %v)", val, err)
+					r.Fail("no-output"+sfx, "reducer wrote nothing but the call returned (%d, %v)", val, err)
 				}
 			case err != nil:
-				r.Fail("result", "undisturbed call returned error %v", err)
+				r.Fail("result"+sfx, "undisturbed call returned error %v%s", err, w.ctxNote())
 			case val != w.redOutput:
-				r.Fail("result", "reducer wrote %d, the call returned %d", w.redOutput, val)
+				r.Fail("result"+sfx, "reducer wrote %d, the call returned %d%s", w.redOutput, val, w.ctxNote())
 			}
 		} else if err != nil && p.variant != 3 && p.variant != 5 {
-			r.Fail("result", "undisturbed call returned error %v", err)
+			r.Fail("result"+sfx, "undisturbed call returned error %v%s", err, w.ctxNote())
 		}
 		return
 	}
